@@ -23,18 +23,23 @@ META = {
 }
 
 SIGSETS = ((('*clefG2',), ('*k[f#]',), ('*M4/4',)), (('*clefF4', '*clefG2'), ('*k[b-e-]',), ('*M3/4',)), (('*clefC3',), ('*M6/8',)),
-           (('*clefG2', '*clefF4'), ('*k[]',), ('*met(c)',), ('*M2/2',)))
+           (('*clefG2', '*clefF4'), ('*k[]',), ('*met(c)',), ('*M2/2',)),
+           # every signature differs from spine to spine (a transposing instrument above a piano part, polymetric notation)
+           (('*clefG2', '*clefF4', '*clefC3'), ('*k[]', '*k[b-e-]', '*k[f#]'), ('*M4/4', '*M2/2', '*M12/8')))
 KINDS = ('notes', 'chords', 'rests')
 PITCH = 'cdefgab'
 RESTS = ('4r', '8r', '2r', '1r', '16r', '8.r', '4.r', '2.r', '16.r', '32r', '1.r', '2..r', '4..r', '8..r', '32.r', '64r', '12r', '6r', '3r', '24r',
          '48r', '0r', '00r', '128r', '64.r', '12.r', '6.r', '3.r', '24.r', '48.r')
 
 
-def build(M, sigset, ks, text_spine, split_m, nested, kinds, final, change_m=0, open_split=False, gcomments=0, tight_join=False):
+def build(M, sigset, ks, text_spine, split_m, nested, kinds, final, change_m=0, open_split=False, gcomments=0, tight_join=False, split_col=0):
     """Rows of a score: M measures each opened by a barline, 2 data rows per measure.
     split_m: measure (1-based, 0 = none) in which spine 0 splits and re-joins (nested: splits twice, joins stepwise);
     kinds[m]: what spine 0 holds in measure m; change_m: measure before which a clef change row is inserted (tracked class);
-    open_split: the split of split_m is joined only in the NEXT measure (tracked class)."""
+    open_split: the split of split_m is joined only in the NEXT measure (tracked class); split_col: the spine that splits (0 = the first,
+    1 = an inner / the last one: cells to the LEFT of the operators)."""
+    sc = split_col
+    assert sc < ks
     heads = ['**kern'] * ks + (['**text'] if text_spine else [])
     rows = [list(heads)]
     for sigrow in SIGSETS[sigset]:
@@ -66,39 +71,40 @@ def build(M, sigset, ks, text_spine, split_m, nested, kinds, final, change_m=0, 
         k0 = kinds[(m - 1) % len(kinds)]
 
         def data():
-            return [cell(k0)] + [cell('notes') for _ in range(live_extra)] + [cell('notes') for _ in range(ks - 1)] + (['la%d' % counter[0]] if text_spine else [])
+            return ([cell(k0 if c == 0 else 'notes') for c in range(sc + 1)] + [cell('notes') for _ in range(live_extra)]
+                    + [cell('notes') for _ in range(ks - 1 - sc)] + (['la%d' % counter[0]] if text_spine else []))
         if pending_join:
             rows.append(data())
-            rows.append(['*v', '*v'] + ['*'] * (ks - 1) + (['*'] if text_spine else []))
+            rows.append(['*'] * sc + ['*v', '*v'] + ['*'] * (ks - 1 - sc) + (['*'] if text_spine else []))
             live_extra = 0
             below_operator(0)
             pending_join = False
         rows.append(data())
         if split_m == m:
-            rows.append(['*^'] + ['*'] * (ks - 1) + (['*'] if text_spine else []))
+            rows.append(['*'] * sc + ['*^'] + ['*'] * (ks - 1 - sc) + (['*'] if text_spine else []))
             live_extra = 1
             below_operator(1)
             rows.append(data())
             if nested:
-                rows.append(['*^', '*'] + ['*'] * (ks - 1) + (['*'] if text_spine else []))
+                rows.append(['*'] * sc + ['*^', '*'] + ['*'] * (ks - 1 - sc) + (['*'] if text_spine else []))
                 live_extra = 2
                 below_operator(2)
                 rows.append(data())
-                rows.append(['*v', '*v', '*'] + ['*'] * (ks - 1) + (['*'] if text_spine else []))
+                rows.append(['*'] * sc + ['*v', '*v', '*'] + ['*'] * (ks - 1 - sc) + (['*'] if text_spine else []))
                 live_extra = 1
                 below_operator(1)
                 rows.append(data())
             if open_split:
                 pending_join = True
             else:
-                rows.append(['*v', '*v'] + ['*'] * (ks - 1) + (['*'] if text_spine else []))
+                rows.append(['*'] * sc + ['*v', '*v'] + ['*'] * (ks - 1 - sc) + (['*'] if text_spine else []))
                 live_extra = 0
                 below_operator(0)
                 if tight_join:
                     continue           # the join row stands directly in front of the next barline
         rows.append(data())
     if pending_join:
-        rows.append(['*v', '*v'] + ['*'] * (ks - 1) + (['*'] if text_spine else []))
+        rows.append(['*'] * sc + ['*v', '*v'] + ['*'] * (ks - 1 - sc) + (['*'] if text_spine else []))
         live_extra = 0
     if final:
         rows.append(['=='] * ks + (['=='] if text_spine else []))
@@ -171,6 +177,12 @@ def _shapes(tier, tracked=False):
                 for split_m in (1, 2):
                     for final in (0, 1):
                         out.append((M, sigset, ks, ts, split_m, 0, ('notes',), final, 0, False, 0, True))
+    # per-spine key and time signatures; three spines, the inner or the last one splits (cells to the left of the operators)
+    for M in (2, 3):
+        for ks, ts in ((2, 0), (3, 0), (2, 1)):
+            for split_m, nested, sc in ((0, 0, 0), (1, 0, 0), (1, 0, 1), (2, 1, 1), (1, 0, ks - 1), (M, 0, 1)):
+                for final in (0, 1):
+                    out.append((M, 4, ks, ts, split_m, nested, ('notes', 'chords'), final, 0, False, 0, False, sc))
     # global comments directly after every barline / around the score
     for M in (2, 3):
         for ks, ts in ((1, 0), (2, 0), (1, 1)):
